@@ -102,6 +102,26 @@ func c02Deep(g G, n int) string {
 	return "<deep xmlns='unknown:deep'>" + open + "leaf" + close + "</deep>"
 }
 
+var c02FailConds = []string{"bad-format", "bad-namespace-prefix", "conflict", "connection-timeout", "host-gone", "host-unknown",
+	"improper-addressing", "internal-server-error", "invalid-from", "invalid-id", "invalid-namespace", "invalid-xml", "not-authorized",
+	"not-well-formed", "policy-violation", "remote-connection-failed", "resource-constraint", "restricted-xml", "see-other-host",
+	"system-shutdown", "undefined-condition", "unexpected-request", "unsupported-encoding", "unsupported-stanza-type",
+	"unsupported-version", "xml-not-well-formed", "item-not-found", "feature-not-implemented", "service-unavailable"}
+
+// delegation / forwarding payloads (XEP-0355, XEP-0297): a registered extension whose
+// decoder is hand-written and recursive
+func c02Delegation(g G, kind string) string {
+	inner := "<message xmlns='jabber:client' id='fwd' from='a@b' to='c@d'><body>forwarded</body></message>"
+	if kind == "iq" {
+		inner = "<iq xmlns='jabber:client' id='fwd' type='get' from='a@b' to='c@d'><query xmlns='jabber:iq:version'/></iq>"
+	}
+	extra := []string{"", "<delay xmlns='urn:xmpp:delay' stamp='2000-01-01T00:00:00Z'/>", "<x xmlns='unknown:ns'><y/></x>"}[g.N("fwdextra", 3)]
+	if g.Bool("fwdextra-first") {
+		return "<delegation xmlns='urn:xmpp:delegation:1'><forwarded xmlns='urn:xmpp:forward:0'>" + extra + inner + "</forwarded></delegation>"
+	}
+	return "<delegation xmlns='urn:xmpp:delegation:1'><forwarded xmlns='urn:xmpp:forward:0'>" + inner + extra + "</forwarded></delegation>"
+}
+
 var c02MsgExt = []string{
 	"<active xmlns='http://jabber.org/protocol/chatstates'/>",
 	"<composing xmlns='http://jabber.org/protocol/chatstates'/>",
@@ -141,7 +161,9 @@ func c02Stanza(g G, kind string, i int, compNS bool) string {
 	case "message":
 		add("type", []string{"chat", "normal", "groupchat", "headline", "error"}[g.N("mtype", 5)])
 		for k := 0; k < kids; k++ {
-			switch g.Weighted("mkid", 3, 3, 3, 1, 2, 1) {
+			switch g.Weighted("mkid", 3, 3, 3, 1, 2, 1, 1) {
+			case 6:
+				b.WriteString(c02Delegation(g, "message"))
 			case 0:
 				b.WriteString("<body>" + c02Texts[g.N("text", len(c02Texts))] + "</body>")
 			case 1:
@@ -182,7 +204,9 @@ func c02Stanza(g G, kind string, i int, compNS bool) string {
 	default: // iq
 		typ := []string{"get", "set", "result", "error"}[g.N("itype", 4)]
 		attrs += " type='" + typ + "'"
-		switch g.Weighted("ipl", 2, 2, 2, 3, 1, 1) {
+		switch g.Weighted("ipl", 2, 2, 2, 3, 1, 1, 1) {
+		case 6:
+			b.WriteString(c02Delegation(g, "iq"))
 		case 0:
 			b.WriteString("<query xmlns='jabber:iq:version'><name>n</name><version>1</version></query>")
 		case 1:
@@ -244,7 +268,7 @@ func c02Top(g G, i int, compNS bool) string {
 		}
 		return fmt.Sprintf("<a xmlns='%s' h='%d'/>", nsSM, g.N("h", 1000))
 	case 12:
-		return "<failed xmlns='" + nsSM + "' h='2'><" + []string{"unexpected-request", "item-not-found", "internal-server-error"}[g.N("failcond", 3)] + " xmlns='" + nsStanzas + "'/></failed>"
+		return "<failed xmlns='" + nsSM + "' h='2'><" + c02FailConds[g.N("failcond", len(c02FailConds))] + " xmlns='" + nsStanzas + "'/></failed>"
 	case 13:
 		if compNS {
 			if g.Pct("handshake-children", 25) {
